@@ -51,6 +51,9 @@ def twoPi : Float := 6.283185307179586
 
 attribute [local instance] realLikeFloat cxLikeCF
 
+/-- focal lengths cross the pipe as floats; `None` is sent as NaN: falsy like `0` -/
+instance : FocalLike Float := ⟨fun x => !(x == 0.0) && !x.isNaN, 1.0 / 0.0⟩
+
 def numCF : Num CF Float where
   real j := do pure ⟨← floatOfJson j, 0.0⟩
   opd j := floatOfJson j
